@@ -178,6 +178,13 @@ def fr_quad(M, b):
     return tot
 
 
+def entry_rounding_allowance(M, b):
+    """the implementation stores each entry k*constraint_lam + constraint_l2 rounded once to binary64 (relative error <= 2^-53),
+    so its exact quadratic form may differ from the ideal one by at most 2^-53 * |b|' |M| |b|; allow 1e-15 * that"""
+    ab = np.abs(np.asarray(b, dtype=float))
+    return Fraction(1, 10 ** 15) * frac_of_float(float(ab @ np.abs(dense(M)) @ ab) * 1.000001) + Fraction(1, 10 ** 300)
+
+
 def viol_sq_sum(beta_mask, beta_val, shape):
     """sum over positions where the float differences of beta_mask violate `shape` of the squared exact differences
     of beta_val (exact rational); mask taken exactly as the code does (np.diff on floats, strict inequality)"""
@@ -262,7 +269,7 @@ def direct_probe(res, rng, tier):
                     nv += k_
             want = frac_of_float(CLAM) * tot + (frac_of_float(l2) * sum((frac_of_float(x) ** 2 for x in b), Fraction(0)) if nv else 0)
             got = fr_quad(M, b)
-            ok = abs(got - want) <= TOL_REL * (1 + abs(want)) and (M == M.T).all() and (nv > 0 or not np.count_nonzero(M))
+            ok = abs(got - want) <= entry_rounding_allowance(M, b) and (M == M.T).all() and (nv > 0 or not np.count_nonzero(M))
             if not ok:
                 res.violations.append(dict(what='Term.build_constraints quadratic form differs from 1e9 * sum of squared violating '
                                                 'differences + l2 * |beta|^2 [iff some violation]', finding=None,
@@ -299,7 +306,7 @@ def direct_probe(res, rng, tier):
                         if nv:
                             want += frac_of_float(l2) * sum((frac_of_float(x) ** 2 for x in ln), Fraction(0))
         got = fr_quad(M, b)
-        if abs(got - want) > TOL_REL * (1 + abs(want)) or not (M == M.T).all():
+        if abs(got - want) > entry_rounding_allowance(M, b) or not (M == M.T).all():
             res.violations.append(dict(what='TensorTerm.build_constraints quadratic form differs from the sum over marginals of the '
                                             'line-wise constraint forms along that marginal\'s axis', finding=None,
                                        input=dict(dims=dims, constraints=cons, coef=b.tolist(), constraint_l2=l2),
@@ -643,6 +650,9 @@ def fit_cases(res, rng, tier):
         if gam._constraint_l2 != l2_start:
             res.count('fit:constraint_l2-escalated-by-_cholesky(known quirk S14, not alarmed)')
         terms = list(gam.terms._terms)
+        if float(gam._constraint_lam) != CLAM:
+            res.violations.append(dict(what='the soft-constraint strength GAM._constraint_lam is not the documented 1e9', finding=None,
+                                       input=spec, observed=float(gam._constraint_lam), expected=CLAM))
         if not gam.terms.hasconstraint or not starts:
             res.violations.append(dict(what='constrained model: hasconstraint is False or C was never built in _pirls', finding=None,
                                        input=spec, observed='no captured C', expected='C rebuilt every iteration'))
@@ -668,7 +678,7 @@ def fit_cases(res, rng, tier):
         st, en = starts[-1], ends[-1]
         bn, bi = en['coef_new'], st['coef_in']
         fb = fr_vec(bn)
-        c = frac_of_float(gam._constraint_lam)
+        c = frac_of_float(CLAM)                                  # the property's constant, not whatever the object carries
         WBb = fr_matvec(en['WB'], fb)
         fit_resid = fr_dot(WBb, [p - q for p, q in zip(fr_vec(en['pd']), WBb)])      # <W B bn, W z - W B bn>
         quadSP = fr_dot(fb, fr_matvec(st['S'] + st['P'], fb))
